@@ -622,6 +622,12 @@ def r11_4_pairing(ctx, prog, rule="R11.4"):
             pops = [e for e in seg if e[0] == "call" and re.search(r"BinaryHeap::<.*>::pop$", e[1])]
             gpops = [e for e in seg if e[0] == "call" and re.search(r"PeekMut::<.*>::pop$", e[1])
                      and len(pcs) == 1 and same(C.expr_of(pa, e[2][0], 0, pa.log.index(e)), (peek, ".some"))]
+            # peek() == Some and no heap operation since: pop() cannot return None; a path that assumes it is infeasible
+            popc = [e for e in seg if e[0] == "choice" and re.match(r"variant\(ret:pop@", str(e[1]))]
+            if pk == "Some" and popc and popc[0][2] == "None" and len(pcs) == 1 and len(pops) == 1:
+                between = [e for e in pa.log[pcs[0] + 1:pa.log.index(pops[0])] if e[0] == "call" and e[3] == ("t", "timeouts")]
+                if not between:
+                    continue
             key = "iteration:peek=%s,due=%s" % (pk, due)
             if bad is not None:
                 ok = False
@@ -1344,7 +1350,15 @@ def r18_6_unknown_new(ctx, prog, rule="R18.6"):
     # the two Option::map closures only convert (Vec::from, Arc::new): they are passed as function items, not closures with logic
     body = info["body"]
     cl = [b for b in prog.bodies.values() if b.path.startswith(U + "::new::{closure")]
-    ctx.ob(rule, "unknown-new:no-closures", not cl, "closures defined in Unknown::new: %s" % [b.path.split("::")[-1] for b in cl], body.where())
+    # a closure given to Option::map may only convert (`|raw| Arc::new(raw.to_vec())`): no branch, no call outside the
+    # conversion whitelist
+    logic = []
+    for b in cl:
+        calls_ok = all(allowed.search(c.full) or allowed.search(c.callee_path) for c in b.calls())
+        branches = any(blk["term"]["k"] == "switch" for blk in b.blocks if not blk["cleanup"])
+        if not calls_ok or branches:
+            logic.append(b.path.split("::")[-1])
+    ctx.ob(rule, "unknown-new:no-closures", not logic, "closures with logic in Unknown::new: %s (of %d closure(s))" % (logic, len(cl)), body.where())
     maps = [c for c in body.calls() if re.search(r"Option::<.*>::(map|filter|and_then|take_if|then|then_some|zip|xor|or|or_else|filter_map)", c.callee_path)]
     okm = all(re.search(r"Option::<.*?>::(\w+)", c.callee_path).group(1) == "map" for c in maps)
     ctx.ob(rule, "unknown-new:only-map", okm, "Option combinators used: %s" % sorted({re.search(r"Option::<.*?>::(\w+)", c.callee_path).group(1) for c in maps}), body.where())
